@@ -1,8 +1,10 @@
 package main
 
 import (
+	"cmp"
 	"encoding/json"
 	"fmt"
+	"math"
 	"slices"
 	"strconv"
 	"strings"
@@ -374,4 +376,50 @@ func textKeyProbe(o *Oracle, salt int) {
 			return
 		}
 	}
+}
+
+// keyTypeProbe (C11): the key-value kinds over another built-in key type, filled with keys at the ends of the type's
+// range: ToJSON writes what json.Marshal writes for the same pairs as a Go map, and a fresh container of the same
+// type loads it back to the same pairs.
+func keyTypeProbe[K cmp.Ordered](o *Oracle, name string, keys []K, salt int) {
+	for _, kind := range []string{"hashmap", "treemap", "linkedhashmap", "redblacktree", "avltree", "btree"} {
+		if o.Failed() {
+			return
+		}
+		o.Kind = kind
+		mk := func() maps.Map[K, string] { return newKVV[K, string](kind, 3+salt%3, cmp.Compare[K]) }
+		m := mk()
+		want := map[K]string{}
+		n := 1 + derive(salt, 7, len(keys))
+		for i := 0; i < n; i++ {
+			k := keys[(derive(salt, 8, len(keys))+i)%len(keys)]
+			m.Put(k, "v"+strconv.Itoa(i))
+			want[k] = "v" + strconv.Itoa(i)
+		}
+		b, err := m.(jsonIO).ToJSON()
+		ref, _ := json.Marshal(want)
+		if err != nil || !json.Valid(b) || !sameDocument(b, ref, true) {
+			o.Fail("C11", "typed-keys", "%s over %s keys: ToJSON gives %s (%v), json.Marshal of the same pairs %s", kind, name, b, err, ref)
+			return
+		}
+		f := mk()
+		if err := loadVariantRaw(f.(jsonIO), salt, b); err != nil {
+			o.Fail("C11", "restart-load-error", "%s over %s keys: loading its own ToJSON output %s failed: %v", kind, name, b, err)
+			return
+		}
+		for k, v := range want {
+			if g, ok := f.Get(k); !ok || g != v || f.Size() != len(want) {
+				o.Fail("C11", "restart-content", "%s over %s keys: after reloading %s Get(%v)=(%q,%v), Size()=%d, want (%q,true), %d", kind, name, b, k, g, ok, f.Size(), v, len(want))
+				return
+			}
+		}
+	}
+}
+
+func keyTypesProbe(o *Oracle, salt int) {
+	keyTypeProbe(o, "uint64", []uint64{math.MaxUint64, 1 << 63, 1<<63 + 12345, 0, 1, 1<<63 - 1, 1 << 32}, salt)
+	keyTypeProbe(o, "uint8", []uint8{255, 0, 128, 127, 1}, salt)
+	keyTypeProbe(o, "int8", []int8{-128, 127, 0, -1, 1}, salt)
+	keyTypeProbe(o, "int64", []int64{math.MinInt64, math.MaxInt64, 0, -1, 1 << 53, -(1 << 53) - 1}, salt)
+	keyTypeProbe(o, "uint", []uint{math.MaxUint, 1 << 63, 0, 7}, salt)
 }
